@@ -41,7 +41,7 @@ Lemma tr_block_fx_deployed : tr_block_fx Scope.deployed = tr_block.
 Proof. reflexivity. Qed.
 Lemma trace_fx_deployed b : trace_fx Scope.deployed b = trace b.
 Proof. reflexivity. Qed.
-Lemma go_diags_fx_deployed c b all : go_diags_fx c Scope.deployed b all = go_diags c b all.
+Lemma go_diags_fx_deployed c b all others : go_diags_fx c Scope.deployed b all others = go_diags c b all others.
 Proof. reflexivity. Qed.
 
 (* class multi_local_order, REPAIRED (fixes/C07-multi-local-order.diff): `local a, b = 1, a`.  The code before the repair
@@ -50,12 +50,12 @@ Proof. reflexivity. Qed.
 Lemma multi_local_witness :
   forall gbk : list N -> Z, exists b,
     parse_file gbk w_multi = PFile b /\ in_fragment b = true /\ pos_clean b = true /\ multi_local_order b = true /\
-    go_diags_fx demo_cfg Scope.no_fixes b [] = [] /\
+    go_diags_fx demo_cfg Scope.no_fixes b [] [] = [] /\
     diag_mem (4, L 1 6 1 7) (spec_diags demo_cfg b []) = true /\
     diag_mem (2, L 1 16 1 17) (spec_diags demo_cfg b []) = true /\
-    diag_mem (4, L 1 6 1 7) (go_diags demo_cfg b []) = true /\
-    diag_mem (2, L 1 16 1 17) (go_diags demo_cfg b []) = true /\
-    length (go_diags demo_cfg b []) = length (spec_diags demo_cfg b []).
+    diag_mem (4, L 1 6 1 7) (go_diags demo_cfg b [] []) = true /\
+    diag_mem (2, L 1 16 1 17) (go_diags demo_cfg b [] []) = true /\
+    length (go_diags demo_cfg b [] []) = length (spec_diags demo_cfg b []).
 Proof. intro gbk. exists b_multi. crunch. Qed.
 
 (* unvisited_local_surplus, REPAIRED (fixes/C20-local-surplus.diff): "local c = 5\nlocal d = 1, 2, c, u\nprint(d)\n".
@@ -69,29 +69,35 @@ Definition b_surplus : block := Eval vm_compute in block_of w_surplus.
 Lemma surplus_witness :
   forall gbk : list N -> Z, exists b,
     parse_file gbk w_surplus = PFile b /\ in_fragment b = true /\ pos_clean b = true /\
-    go_diags_fx demo_cfg Scope.before_surplus b [] = [(4, L 1 6 1 7)] /\
+    go_diags_fx demo_cfg Scope.before_surplus b [] [] = [(4, L 1 6 1 7)] /\
     spec_diags demo_cfg b [] = [(2, L 2 19 2 20)] /\
-    go_diags demo_cfg b [] = [(2, L 2 19 2 20)].
+    go_diags demo_cfg b [] [] = [(2, L 2 19 2 20)].
 Proof. intro gbk. exists b_surplus. crunch. Qed.
 
 Lemma pos_filter_witness :
   forall gbk : list N -> Z, exists b,
     parse_file gbk w_pos = PFile b /\ in_fragment b = true /\ multi_local_order b = false /\ pos_clean b = false /\
     spec_diags demo_cfg b [] = [] /\
-    diag_mem (4, L 1 27 1 31) (go_diags demo_cfg b []) = true /\
-    diag_mem (2, L 1 7 1 11) (go_diags demo_cfg b []) = true.
+    diag_mem (4, L 1 27 1 31) (go_diags demo_cfg b [] []) = true /\
+    diag_mem (2, L 1 7 1 11) (go_diags demo_cfg b [] []) = true.
 Proof. intro gbk. exists b_pos. crunch. Qed.
 
+(* class later_elsewhere, REPAIRED (fixes/C07-later-elsewhere.diff): "print(g)\ng = 2\n" while another file defines g
+   too.  The code before the repair (`Scope.before_later_else`) reported the read as a load-order error (type 3); the
+   code now in /repo asks the other files first and reports nothing - what the reference demands *)
 Lemma later_elsewhere_witness :
   forall gbk : list N -> Z, exists b,
     parse_file gbk w_later = PFile b /\ in_fragment b = true /\ pos_clean b = true /\
     later_elsewhere demo_cfg b [[103]] = true /\
-    go_diags demo_cfg b [[103]; [103]] = [(3, L 1 6 1 7)] /\
-    spec_diags demo_cfg b [[103]] = [].
+    go_diags_fx demo_cfg Scope.before_later_else b [[103]; [103]] [[103]] = [(3, L 1 6 1 7)] /\
+    spec_diags demo_cfg b [[103]] = [] /\
+    go_diags demo_cfg b [[103]; [103]] [[103]] = [] /\
+    (* no other file defines g: the load-order error stays, as the reference demands *)
+    go_diags demo_cfg b [[103]] [] = [(3, L 1 6 1 7)] /\ spec_diags demo_cfg b [] = [(3, L 1 6 1 7)].
 Proof. intro gbk. exists b_later. crunch. Qed.
 
 Lemma guard_witness :
   forall gbk : list N -> Z, exists b,
     parse_file gbk w_ok = PFile b /\ in_fragment b = true /\ pos_clean b = true /\
-    go_diags demo_cfg b [] = [(2, L 4 6 4 7)] /\ spec_diags demo_cfg b [] = [(2, L 4 6 4 7)].
+    go_diags demo_cfg b [] [] = [(2, L 4 6 4 7)] /\ spec_diags demo_cfg b [] = [(2, L 4 6 4 7)].
 Proof. intro gbk. exists b_ok. crunch. Qed.
